@@ -679,8 +679,9 @@ func hasGuardSite(eng *Engine, fn *ssa.Function, guards []*Guard) bool {
 			switch in := in.(type) {
 			case ssa.CallInstruction:
 				key := calleeKey(in.Common())
+				_, isGo := in.(*ssa.Go)
 				for _, g := range guards {
-					if g.Kind == "call" && guardMatchesCallee(g.Target, key) {
+					if ((g.Kind == "call" && !isGo) || (g.Kind == "go" && isGo)) && guardMatchesCallee(g.Target, key) {
 						return true
 					}
 				}
